@@ -140,6 +140,15 @@ def c01(ctx):
 def c02(ctx):
     res = Result()
     rng = cc.RNG(ctx['seed'] + 1000)
+    if ctx.get('replay') and 'case' not in ctx['replay']:
+        # a witness from the live-session families (bytes written / broker packets read during sessions): those families are deterministic
+        # and are simply run again in full
+        ctx2 = dict(ctx); ctx2.pop('replay')
+        _session_writes(ctx2, res)
+        _session_reads(ctx2, res)
+        res.evaluations = res.programs = int(res.extra.get('session_reads_checked', 0)) + 1
+        res.rule = 'replay: the live-session families of C02 (writes compared with the reference encoding, broker packets read in the prescribed formats)'
+        return res
     if ctx.get('replay'):
         case = ctx['replay']['case']
         cases = [(case['kind'], _unjson(case['fields']))]
@@ -302,6 +311,24 @@ def _session_reads(ctx, res):
                 res.violations.append(dict(what='C02: a PUBREL in the format prescribed for version %s (first byte %#x, then %#x) does not complete the exchange '
                                            '(deliveries %s, written %s, aborted %s)' % (ver, first, again, got, acks, any(o.startswith('abort') for o in obs)),
                                            signature='C02 session read', scenario=lines))
+    # inbound packets whose remaining length sits on the three/four-byte boundary of the length field (2 097 151 / 2 097 152), in three segments
+    for ver in ('311', '31'):
+        for rem in (2097151, 2097152):
+            body = bytes((i * 13) % 251 for i in range(rem - 2 - 1 - 2))
+            b = publish_pkt('t', body, 1, mid=0x0102)
+            pre = _prefix(3, ver, 'connected')
+            lines = pre + ['recv 0 ' + hx(b[:3]), 'recv 0 ' + hx(b[3:70000]), 'recv 0 ' + hx(b[70000:])]
+            trace = realworld.run_scenario(lines)
+            obs = [o for step in trace[len(pre):] for o in step[1]]
+            got = [o for o in obs if o.startswith('pub ')]
+            acks = [o.split()[2] for o in obs if o.startswith('w ')]
+            n += 1
+            want = ['pub 0 %s %s 1 0 0 258' % (hx(b't'), hx(body))]
+            if got != want or acks != ['40020102'] or any(o.startswith(('abort', 'esc')) for o in obs):
+                res.violations.append(dict(what='C02: a broker PUBLISH with remaining length %d (version %s) is not decoded to the standard\'s field values '
+                                           '(deliveries %d, payload bytes %s, written %s, other %s)' % (rem, ver, len(got), [len(g.split()[3]) // 2 for g in got], acks,
+                                                                                                      [o for o in obs if o.startswith(('abort', 'esc'))]),
+                                           signature='C02 session read', scenario=lines[:len(pre)] + ['# followed by the %d-byte PUBLISH in three segments' % len(b)], realonly=True))
     res.extra['session_reads_checked'] = n
 
 
